@@ -81,7 +81,7 @@ def run(tier):
         start = max(i for i in range(at) if '"op":"New"' in lines[i])
         ctx = lines[start:at]
         c.report_failure("x-config: recorded call/value not allowed by ConfigEnricher.tla: " + summarize(ctx[-1] if ctx else ""),
-                         {"rejected_at_line": at, "history": ctx[-12:], "trace": {"comp": "extras", "module": "ConfigEnricherTrace"}})
+                         {"rejected_at_line": at, "history": ctx, "trace": {"comp": "extras", "module": "ConfigEnricherTrace"}})
     if not c.quick():
         selftest(c, emits[0], lines, tcfg)
     c.assumptions.append("left open by the comments and not judged: which key wins when one key addresses a field and another the same "
